@@ -36,7 +36,8 @@ Section Lookup.
   Definition subs_post (subs : list op) (wl : world) (res : (bool * cfiles) + exn) : Prop :=
     good w wl /\ exists b cf, res = inl (b, cf) /\
       if b then exists r Tl M, kreplay_list s subs (start_replay s) = Some r /\ RRel W w s [] Tl cf r M /\
-                               (forall t, In t Tl -> In t (flat_map regp subs))
+                               (forall t, In t Tl -> In t (flat_map regp subs)) /\
+                               (forall t, In t (flat_map adp subs) -> In t Tl)
       else kreplay_list s subs (start_replay s) = None.
 
   Lemma subs_agree : forall p0 subs w1 wl res, KInv s p0 -> subs_ok p0 subs -> good w w1 ->
@@ -48,8 +49,8 @@ Section Lookup.
     destruct (replay_list_corr hk W w s p0 HS HB HWcl Hml Hhk HK HSD1 HSD2 subs [] [] cf_empty _ [] w1 wl res H1 H2 H3 Hnew G HR H)
       as (G1 & b & cf & -> & P).
     split; [exact G1|]. exists b, cf. split; [reflexivity|]. destruct b; [|exact P].
-    destruct P as (r & Tl & M & K & R & _ & T & _). exists r, Tl, M. split; [exact K|]. split; [exact R|].
-    intros t Ht. destruct (T t Ht) as [[]|K']. exact K'.
+    destruct P as (r & Tl & M & K & R & _ & T & _ & A). exists r, Tl, M. split; [exact K|]. split; [exact R|].
+    split; [|exact A]. intros t Ht. destruct (T t Ht) as [[]|K']. exact K'.
   Qed.
 
   (* ---------------------------------------------------------------- build_file *)
@@ -72,7 +73,8 @@ Section Lookup.
     | Some (g, subs', ret', r) =>
         exists rec cf Tl M, res = inl (Some rec) /\ cache_get_file (w_old w) p = Some rec /\
           op_subs rec = subs' /\ op_ret rec = ret' /\ lookup (w_fs w) p = Some (NFile g) /\
-          RRel W w s [] Tl cf r M /\ (forall t, In t Tl -> In t (flat_map regp subs'))
+          RRel W w s [] Tl cf r M /\ (forall t, In t Tl -> In t (flat_map regp subs')) /\
+          (forall t, In t (flat_map adp subs') -> In t Tl)
     end.
   Proof.
     intros p f sa skw wl res HK Hne Hpok Hunc Hncf Hrec H.
@@ -105,8 +107,9 @@ Section Lookup.
     2:{ exfalso. destruct (subs_agree (Some p) subs' w2 wl (inr e) HK Hsubs G2 Es) as (_ & b & cf & K & _). discriminate. }
     destruct (subs_agree (Some p) subs' w2 w3 (inl rr) HK Hsubs G2 Es) as (G3 & b & cf & Err & P).
     inversion Err; subst rr. clear Err. cbn [fst] in H2. destruct b.
-    - destruct P as (r & Tl & M & K & R & T). rewrite K. inversion H2; subst. split; [exact G3|].
-      eexists _, cf, Tl, M. split; [reflexivity|]. split; [reflexivity|]. cbn [op_subs op_ret]. auto.
+    - destruct P as (r & Tl & M & K & R & T & A). rewrite K. inversion H2; subst. split; [exact G3|].
+      eexists _, cf, Tl, M. split; [reflexivity|]. split; [reflexivity|]. cbn [op_subs op_ret].
+      split; [reflexivity|]. split; [reflexivity|]. split; [reflexivity|]. split; [exact R|]. split; [exact T|exact A].
     - rewrite P. inversion H2; subst. split; [exact G3|reflexivity].
   Qed.
 
@@ -153,7 +156,8 @@ Section Lookup.
     | Some (subs', ret', r) =>
         exists rec cf Tl M, res = inl (Some rec) /\ subs_get (c_subs (w_old w)) key = Some (Some rec) /\
           op_subs rec = subs' /\ op_ret rec = ret' /\
-          RRel W w s [] Tl cf r M /\ (forall t, In t Tl -> In t (flat_map regp subs'))
+          RRel W w s [] Tl cf r M /\ (forall t, In t Tl -> In t (flat_map regp subs')) /\
+          (forall t, In t (flat_map adp subs') -> In t Tl)
     end.
   Proof.
     intros key f wl res HK Hrec H.
@@ -172,8 +176,9 @@ Section Lookup.
     2:{ exfalso. destruct (subs_agree None subs' w wl (inr e) HK Hsubs (good_refl _ HB) Es) as (_ & b & cf & K & _). discriminate. }
     destruct (subs_agree None subs' w w3 (inl rr) HK Hsubs (good_refl _ HB) Es) as (G3 & b & cf & Err & P).
     inversion Err; subst rr. clear Err. cbn [fst] in H. destruct b.
-    - destruct P as (r & Tl & M & K & R & T). rewrite K. inversion H; subst. split; [exact G3|].
-      eexists _, cf, Tl, M. split; [reflexivity|]. split; [reflexivity|]. cbn [op_subs op_ret]. auto.
+    - destruct P as (r & Tl & M & K & R & T & A). rewrite K. inversion H; subst. split; [exact G3|].
+      eexists _, cf, Tl, M. split; [reflexivity|]. split; [reflexivity|]. cbn [op_subs op_ret].
+      split; [reflexivity|]. split; [reflexivity|]. split; [exact R|]. split; [exact T|exact A].
     - rewrite P. inversion H; subst. split; [exact G3|reflexivity].
   Qed.
 
